@@ -338,6 +338,11 @@ def execute(plan, tape):
                 if k in ("register_dwf", "declare_freshlike"):
                     fspec = None        # pure history: no sequential specification to compare with
                 spec_out = calls.outcome(fresh, fspec, ff, term, user) if fspec is not None else aged
+                if fspec is not None and spec_out[0] == "ok" and isinstance(spec_out[2], FNode_) and k != "foreign" \
+                        and spec_out[2] not in fresh.formula_manager:
+                    raise Violation("C14:%s:foreign-result" % k,
+                                    "step %d: %s(pool[%d]) in a brand-new environment returned a formula of another environment's manager" %
+                                    (step, k, i))
         if k == "factory" and spec.get("action") == "add" and aged[0] == "ok":
             registrations.append(dict(spec))
             probe("generic_solver_registered")
@@ -367,6 +372,13 @@ def execute(plan, tape):
         if aged[0] == "ok" and isinstance(aged[2], tuple) and aged[2] and aged[2][0] == "script-roundtrip-broken":
             raise Violation("C14:script_serialize:depends-on-earlier-commands",
                             "step %d: serialising a script with one printer: %s" % (step, aged[2][1]))
+        # a formula a call returns belongs to the environment the call was made in
+        for out_, e_, lab_ in ((aged, env, "aged"), (spec_out, None, "brand-new")):
+            if e_ is not None and out_[0] == "ok" and isinstance(out_[2], FNode_) and k != "foreign" \
+                    and out_[2] not in e_.formula_manager:
+                raise Violation("C14:%s:foreign-result" % k,
+                                "step %d: %s(pool[%d]) in the %s environment returned a formula of another environment's manager" %
+                                (step, k, i, lab_))
         for out_ in (aged, spec_out):
             if out_[0] == "ok" and isinstance(out_[2], tuple) and out_[2] and out_[2][0] == "factory-preferences-foreign":
                 raise Violation("C14:factory:preferences-shared",
